@@ -1,1 +1,2 @@
-import Pakhi.Model.Lexer
+import Pakhi.Model.Interp
+import Pakhi.Model.Parser
